@@ -4,9 +4,12 @@ import Chihaya.Base.Decimal
 # Model of `bittorrent/params.go` (`ParseURLData`, `parseQuery`, `QueryParams`)
 
 External functions are parameters:
-* `lower : Bytes → Bytes` — `strings.ToLower`. For ASCII input it is `asciiLower` (hypothesis of the
-  theorems, instantiated so by the driver); for keys containing bytes ≥ 0x80 the driver uses the
-  mapping the harness observed (Unicode case folding / invalid UTF-8 replacement are Go's business).
+* `lower : Bytes → Bytes` — the normalisation of parameter keys. Since the repair D27 `parseQuery`
+  lower-cases ASCII letters only and leaves every other byte alone: `asciiLower`, which is what the
+  driver instantiates it with for every key (before D27 it was `strings.ToLower`, whose Unicode case
+  folding maps U+0130 to `i` and U+212A to `k`, and the driver used the mapping the harness observed —
+  a tie that could not see the aliasing). Most theorems hold for any `lower`; those that are about
+  which keys reach a consulted parameter are stated for `asciiLower` (`Props/C06.lean`).
 -/
 namespace Query
 
